@@ -398,11 +398,16 @@ func Run(args []string) int {
 	only := fs.Int("only", -1, "emit only case #i (with objects)")
 	replay := fs.String("replay", "", "")
 	workers := fs.Int("j", 8, "parallel pipeline runs")
+	fragment := fs.Int("fragment", 0, "emit only this many scenarios of C02's fragment profile (stream for driver mode `render`)")
 	if err := fs.Parse(args); err != nil {
 		return 2
 	}
 	w := bufio.NewWriterSize(os.Stdout, 1<<20)
 	defer w.Flush()
+	if *fragment > 0 {
+		runFragments(w, *seed, *fragment, *only)
+		return 0
+	}
 	enc := json.NewEncoder(w)
 	enc.SetEscapeHTML(false)
 	for _, plus := range []bool{false, true} {
